@@ -127,3 +127,52 @@ Proof.
   destruct (pep_prerelease_rendering z x y (zz + 1) lab n Hv Hc Hin E1 E2 E3 Ep Hx Hy Hw Hn) as [p [P1 [P2 P3]]].
   exists p. split; [exact P1|]. intros He. apply (pep_prerelease_between p e x y zz lab He P2 P3).
 Qed.
+
+(* ======================= monotonicity in commit post-mode (SemVer) ======================= *)
+(* the pre-release identifiers of an object rendered through the standard extra-core lists that print the post number *)
+Lemma extra_ids_full vs e pl po pd :
+  v_epoch vs = e -> v_pre vs = (match pl with Some (l, n) => Some {| pr_label := l; pr_num := Some n |} | None => None end) -> v_post vs = po -> v_dev vs = pd ->
+  opt_u64 e -> (match pl with Some (_, n) => u64 n | None => True end) -> opt_u64 po -> opt_u64 pd ->
+  flat_map (fun c => sv_extra_ids c vs) prerelease_post_dev_extra = canon_pre e pl po pd /\
+  flat_map (fun c => sv_extra_ids c vs) prerelease_post_extra = canon_pre e pl po None.
+Proof.
+  intros Ee Ep Eo Ed He Hpl Hpo Hpd. unfold prerelease_post_dev_extra, prerelease_post_extra, canon_pre. cbn [flat_map sv_extra_ids is_secondary]. rewrite !app_nil_r.
+  assert (A1 : sv_secondary Epoch vs = match e with Some n => [IStr s_epoch; IUInt n] | None => [] end).
+  { destruct e as [n|]; [apply (secondary_epoch vs n Ee He)|apply (secondary_none Epoch vs eq_refl Ee)]. }
+  assert (A2 : sv_secondary PreRelease vs = match pl with Some (l, n) => [IStr (label_str l); IUInt n] | None => [] end).
+  { destruct pl as [[l n]|]; [apply (secondary_pre vs l n Ep Hpl)|apply (secondary_none PreRelease vs eq_refl Ep)]. }
+  assert (A3 : sv_secondary Post vs = match po with Some n => [IStr s_post; IUInt n] | None => [] end).
+  { destruct po as [n|]; [apply (secondary_post vs n Eo Hpo)|apply (secondary_none Post vs eq_refl Eo)]. }
+  assert (A4 : sv_secondary Dev vs = match pd with Some n => [IStr s_dev; IUInt n] | None => [] end).
+  { destruct pd as [n|]; [apply (secondary_dev vs n Ed Hpd)|apply (secondary_none Dev vs eq_refl Ed)]. }
+  rewrite A1, A2, A3, A4. split; [reflexivity|]. rewrite ?app_nil_r. reflexivity.
+Qed.
+
+(* two objects that differ only in the post number (and possibly dev / context / build), same label and number, no epoch: the one with
+   the larger post number renders strictly greater - through either standard extra-core list that prints post *)
+Theorem post_monotone_rendering z1 z2 x y w lab n p1 p2 :
+  z_schema z1 = z_schema z2 -> s_core (z_schema z1) = standard_core ->
+  (s_extra (z_schema z1) = prerelease_post_dev_extra \/ s_extra (z_schema z1) = prerelease_post_extra) ->
+  (forall z, z = z1 \/ z = z2 -> v_major (z_vars z) = Some x /\ v_minor (z_vars z) = Some y /\ v_patch (z_vars z) = Some w /\ v_epoch (z_vars z) = None /\
+                                v_pre (z_vars z) = Some {| pr_label := lab; pr_num := Some n |} /\ opt_u64 (v_dev (z_vars z))) ->
+  v_post (z_vars z1) = Some p1 -> v_post (z_vars z2) = Some p2 -> p1 < p2 ->
+  u64 x -> u64 y -> u64 w -> u64 n -> u64 p1 -> u64 p2 ->
+  sv_lt (semver_of_zerv z1) (semver_of_zerv z2).
+Proof.
+  intros Hs Hc Hex Hv Hp1 Hp2 Hlt Hx Hy Hw Hn H1 H2.
+  destruct (Hv z1 (or_introl eq_refl)) as [A1 [A2 [A3 [A4 [A5 A6]]]]]. destruct (Hv z2 (or_intror eq_refl)) as [B1 [B2 [B3 [B4 [B5 B6]]]]].
+  assert (R : forall z p, z_schema z = z_schema z1 -> v_major (z_vars z) = Some x -> v_minor (z_vars z) = Some y -> v_patch (z_vars z) = Some w -> v_epoch (z_vars z) = None ->
+              v_pre (z_vars z) = Some {| pr_label := lab; pr_num := Some n |} -> opt_u64 (v_dev (z_vars z)) -> v_post (z_vars z) = Some p -> u64 p ->
+              exists rest, sv_major (semver_of_zerv z) = x /\ sv_minor (semver_of_zerv z) = y /\ sv_patch (semver_of_zerv z) = w /\
+                           sv_pre (semver_of_zerv z) = Some (IStr (label_str lab) :: IUInt n :: IStr s_post :: IUInt p :: rest)).
+  { intros z p Hz E1 E2 E3 E4 E5 E6 E7 Hp. unfold semver_of_zerv. rewrite Hz, Hc, (standard_core_numbers _ x y w E1 E2 E3 Hx Hy Hw).
+    cbn [a_major a_minor a_patch a_pre a_build sv_major sv_minor sv_patch sv_pre]. rewrite push_fold, push_none.
+    destruct (extra_ids_full (z_vars z) None (Some (lab, n)) (Some p) (v_dev (z_vars z)) E4 E5 E7 eq_refl I Hn Hp E6) as [F1 F2].
+    destruct Hex as [Hex|Hex]; rewrite Hex.
+    - rewrite F1. unfold canon_pre. cbn [app]. eexists. repeat split; reflexivity.
+    - rewrite F2. unfold canon_pre. cbn [app]. eexists. repeat split; reflexivity. }
+  destruct (R z1 p1 eq_refl A1 A2 A3 A4 A5 A6 Hp1 H1) as [r1 [M1 [M2 [M3 M4]]]].
+  destruct (R z2 p2 (eq_sym Hs) B1 B2 B3 B4 B5 B6 Hp2 H2) as [r2 [N1 [N2 [N3 N4]]]].
+  eapply sv_pre_ids; [congruence|congruence|congruence|exact M4|exact N4|].
+  apply ids_tl, ids_tl, ids_tl, ids_hd, id_num. exact Hlt.
+Qed.
